@@ -309,6 +309,64 @@ func checkC12(c *Check) {
 		okRet, why := returnsOnEdge(r, ing, cnn, cb, true)
 		c.Cond(okRet, "callback-error-returned-unchanged", "non-nil edge of the callback result", p.InstrPos(cb), "returns the callback's error value itself", why)
 	}
+	// the error on its way out is not replaced by a deferred function: a
+	// deferred closure that assigns the named error result without first
+	// testing that it is still nil overwrites the callback's (or the read's)
+	// error with its own
+	for _, hf := range []*ssa.Function{cb.Parent()} {
+		allInstrs(hf, func(in ssa.Instruction) {
+			df, ok := in.(*ssa.Defer)
+			if !ok {
+				return
+			}
+			mc, ok := df.Call.Value.(*ssa.MakeClosure)
+			if !ok {
+				return
+			}
+			cf := mc.Fn.(*ssa.Function)
+			for i, b := range mc.Bindings {
+				al, isAl := b.(*ssa.Alloc)
+				if !isAl || !isErrorType(deref(al.Type())) || i >= len(cf.FreeVars) {
+					continue
+				}
+				// is it the cell a return of hf yields?
+				isResult := false
+				allInstrs(hf, func(in2 ssa.Instruction) {
+					if ret, ok := in2.(*ssa.Return); ok {
+						for _, rv := range ret.Results {
+							if ld, ok := rv.(*ssa.UnOp); ok && ld.Op == token.MUL && ld.X == ssa.Value(al) {
+								isResult = true
+							}
+						}
+					}
+				})
+				if !isResult {
+					continue
+				}
+				fv := cf.FreeVars[i]
+				allInstrs(cf, func(in2 ssa.Instruction) {
+					st, ok := in2.(*ssa.Store)
+					if !ok || st.Addr != ssa.Value(fv) {
+						return
+					}
+					guarded := false
+					for _, g := range GuardsOf(st) {
+						a := atomsOf(g)
+						if bo, ok := a.V.(*ssa.BinOp); ok && (bo.Op == token.EQL || bo.Op == token.NEQ) {
+							for _, pair := range [][2]ssa.Value{{bo.X, bo.Y}, {bo.Y, bo.X}} {
+								if ld, ok := pair[0].(*ssa.UnOp); ok && ld.Op == token.MUL && ld.X == ssa.Value(fv) && isNilConst(pair[1]) {
+									if (bo.Op == token.EQL) == a.Pos {
+										guarded = true
+									}
+								}
+							}
+						}
+					}
+					c.Cond(guarded, "callback-error-returned-unchanged", "deferred assignment to the error result of "+hf.Name(), p.InstrPos(st), "only while the result is still nil", "a deferred function overwrites the error result without testing that it is still nil: the callback's error (or the read error) is replaced on its way out, e.g. by the error of closing a file that the cancellation goroutine has already closed")
+				})
+			}
+		})
+	}
 	// 2. reader outlives the loop
 	rr := r
 	for i := len(handOff) - 1; i >= 0; i-- {
